@@ -593,8 +593,57 @@ fn container(_thorough: bool) -> Report {
     r
 }
 
+/// child-process mode: `bounded stack-probe <depth> <what>`: on a thread with the default 2 MiB stack of a spawned Rust thread,
+/// parse a message whose single attribute is a collection nested `depth` deep and use the result; exits 0 when everything
+/// returned, dies (abort) on stack exhaustion
+fn stack_probe(depth: usize, what: String) {
+    let mut m: Vec<u8> = vec![1, 1, 0, 0, 0, 0, 0, 1, 0x01, 0x34, 0, 1, b'c', 0, 0];
+    for _ in 1..depth { m.extend_from_slice(&[0x4a, 0, 0, 0, 1, b'm', 0x34, 0, 0, 0, 0]); }
+    for _ in 0..depth { m.extend_from_slice(&[0x37, 0, 0, 0, 0]); }
+    m.push(0x03);
+    let t = std::thread::Builder::new().stack_size(2 << 20).spawn(move || {
+        let resp = IppParser::new(std::io::Cursor::new(m)).parse();
+        match (what.as_str(), resp) {
+            (_, Err(e)) => { println!("rejected: {e}"); }
+            ("drop", Ok(r)) => { drop(r); println!("dropped"); }
+            ("encode", Ok(r)) => { let n = r.to_bytes().len(); std::mem::forget(r); println!("encoded {n}"); }
+            ("display", Ok(r)) => { let n = r.attributes().groups().iter().flat_map(|g| g.attributes().values()).map(|a| format!("{}", a.value()).len()).sum::<usize>(); std::mem::forget(r); println!("displayed {n}"); }
+            ("clone", Ok(r)) => { let c = r.attributes().clone(); std::mem::forget(c); std::mem::forget(r); println!("cloned"); }
+            ("traverse", Ok(r)) => { let n = r.attributes().groups().iter().flat_map(|g| g.attributes().values()).map(|a| a.value().into_iter().count()).sum::<usize>(); std::mem::forget(r); println!("traversed {n}"); }
+            (_, Ok(r)) => { std::mem::forget(r); println!("parsed"); }
+        }
+    }).unwrap();
+    let _ = t.join();
+}
+
+/// C02, "never overflow the stack ... displaying, re-encoding, traversing, cloning and dropping whatever was returned":
+/// one operation on the result of parsing a deeply nested collection (structural bomb well under 1 MiB), in a child process
+fn c02_stack(op: &str, thorough: bool) -> Report {
+    let name = format!("c02_stack_{op}");
+    let mut r = Report::new(Box::leak(name.into_boxed_str()));
+    let exe = std::env::current_exe().unwrap();
+    for depth in if thorough { vec![2000usize, 40000, 60000] } else { vec![2000usize, 40000] } {
+        r.case(format!("{op}:{depth}").as_bytes());
+        match std::process::Command::new(&exe).args(["stack-probe", &depth.to_string(), op]).output() {
+            Ok(o) if o.status.success() => {}
+            Ok(o) => {
+                let err = String::from_utf8_lossy(&o.stderr);
+                let why = if err.contains("overflowed its stack") { "stack exhausted, process aborted" } else { "process died" };
+                r.fail(format!("{why} when the value parsed from a collection nested {depth} deep ({} KiB message) is used: {op} (2 MiB thread stack)", depth * 16 / 1024));
+                return r;
+            }
+            Err(e) => { r.fail(format!("cannot run the stack probe: {e}")); return r; }
+        }
+    }
+    r
+}
+
 fn main() {
     let args: Vec<String> = std::env::args().collect();
+    if args.get(1).map(|s| s.as_str()) == Some("stack-probe") {
+        stack_probe(args[2].parse().unwrap(), args.get(3).cloned().unwrap_or_else(|| "drop".to_string()));
+        return;
+    }
     let thorough = args.get(2).map(|s| s == "thorough").unwrap_or(false);
     std::panic::set_hook(Box::new(|_| {}));
     let mut failed = false;
@@ -602,6 +651,7 @@ fn main() {
         let rep = match c {
             "c01" => c01(thorough), "c01_utc_dir" => c01_utc_dir(thorough), "c02" => c02(thorough), "c03" => c03(thorough), "c04" => c04(thorough), "c05" => c05(thorough),
             "c06" => c06(thorough), "c07" => c07(thorough), "c09" => c09(thorough), "c10" => c10(thorough), "container" => container(thorough),
+            x if x.starts_with("c02_stack_") => c02_stack(&x["c02_stack_".len()..], thorough),
             _ => continue,
         };
         failed |= rep.failure.is_some();
